@@ -1,83 +1,5 @@
 /-
-  Proofs: the SDES scanner against the reference tokeniser.
+  Proofs (split over several files).
 -/
-import Rtcp.Spec.All
-
-namespace Rtcp.Proofs
-open Rtcp Rtcp.Impl Rtcp.Spec
-
-/-- accepted ⇒ framed, padding within the packet, and the chunks are the reference tokenisation -/
-theorem sdes_parse_accepts (bs : Bytes) (v : Sdes) (h : Sdes.parse bs = .ok v) :
-    v.data = bs ∧ WellFramed 4 202 bs ∧ 4 + padLen bs ≤ bs.length ∧
-    refTok (sdesBody bs) = some (v.chunks.map chunkAsRef) ∧
-    (∀ c ∈ v.chunks, ∀ it ∈ c.items, ItemOk bs it) := by
-  sorry
-
-/-- rejected ⇒ not framed, or the padding overruns, or the reference tokeniser rejects too -/
-theorem sdes_parse_rejects (bs : Bytes) (e : ParseError) (h : Sdes.parse bs = .err e) :
-    ¬ (WellFramed 4 202 bs ∧ 4 + padLen bs ≤ bs.length ∧ (refTok (sdesBody bs)).isSome) := by
-  sorry
-
-theorem sdes_parse_no_panic (bs : Bytes) : Sdes.parse bs ≠ .panic := by
-  sorry
-
-/-- C18: the errors of the SDES parser are truthful -/
-theorem sdes_err_truthful (bs : Bytes) (e : ParseError) (h : Sdes.parse bs = .err e) :
-    ErrorTruthful bs 202 e := by
-  sorry
-
-/-- every accessor of a parsed item returns normally, with exactly the bytes on the wire; PRIV
-    items split into prefix and value as the reference says -/
-theorem item_accessors {ε : Type} (bs : Bytes) (it : SdesItem) (h : ItemOk bs it) :
-    (it.type : R ε UInt8) = .ok (u8At it.data 0).toUInt8 ∧
-    (it.length : R ε Nat) = .ok (it.data.length - 2) ∧
-    (u8At it.data 0 ≠ 8 →
-      (it.value : R ε Slice) = .ok ⟨it.off + 2, it.data.drop 2⟩) ∧
-    (u8At it.data 0 = 8 →
-      (it.privPrefixLen : R ε UInt8) = .ok (u8At it.data 2).toUInt8 ∧
-      (it.privPrefix : R ε Slice) = .ok ⟨it.off + 3, (it.data.drop 3).take (u8At it.data 2)⟩ ∧
-      (it.value : R ε Slice) = .ok ⟨it.off + 3 + u8At it.data 2, it.data.drop (3 + u8At it.data 2)⟩ ∧
-      (itemAsRef it).privSplit = some ((it.data.drop 3).take (u8At it.data 2), it.data.drop (3 + u8At it.data 2))) := by
-  sorry
-
-/-- each chunk reports its own encoded length: SSRC, items with their two header octets, the
-    terminator, rounded up to 32 bits -/
-theorem chunk_length {ε : Type} (bs : Bytes) (c : SdesChunk) (h : ∀ it ∈ c.items, ItemOk bs it) :
-    (c.length : R ε Nat) = .ok (pad4 (4 + (c.items.map (·.data.length)).sum + 1)) := by
-  sorry
-
-/-- the reference tokeniser accepts exactly the reference encoder's images: must-accept (C10) -/
-theorem refTok_encode (cs : List SdesChunkBuilder)
-    (h : ∀ c ∈ cs, ∀ it ∈ c.items, itemRules it = [] ∧ it.type ≠ 0) :
-    refTok ((cs.map chunkImage).flatten) = some (cs.map chunkCfgAsRef) := by
-  sorry
-
-/-- the encoded length of a well-formed chunk is what `length()` reports for it -/
-theorem chunkImage_length (c : SdesChunkBuilder) :
-    (chunkImage c).length = pad4 (4 + (c.items.map (fun it => (itemImage it).length)).sum + 1) := by
-  sorry
-
-/-- C03: every SDES packet the builder accepts (item types ≠ 0) is accepted by the parser and
-    yields exactly the configured chunks, items (type, value, PRIV prefix) and padding -/
-theorem sdes_roundtrip {ε : Type} (b : SdesBuilder) (h : sdesRules b = [])
-    (hz : ∀ c ∈ b.chunks, ∀ it ∈ c.items, it.type ≠ 0) :
-    ∃ v, Sdes.parse (sdesImage b) = .ok v ∧
-      v.chunks.map chunkAsRef = b.chunks.map chunkCfgAsRef ∧
-      (Sdes.padding v : R ε (Option UInt8)) = .ok (getPaddingOf b.padding) := by
-  sorry
-
-/-! the three must-reject classes, as the reference tokeniser sees them (by definition) -/
-
-/-- a PRIV prefix that overruns its item is rejected -/
-theorem ref_rejects_priv_overrun (fuel pos : Nat) (l pl : UInt8) (rest : Bytes)
-    (hl : l.toNat ≤ rest.length + 1) (h1 : 1 ≤ l.toNat) (h : l.toNat - 1 < pl.toNat) :
-    refItems (fuel + 1) pos (8 :: l :: pl :: rest) = none := by
-  sorry
-
-/-- non-zero bytes in a chunk's fill are rejected -/
-theorem ref_rejects_nonzero_fill (fuel pos : Nat) (rest : Bytes)
-    (h : ∃ i, i < (4 - (pos + 1) % 4) % 4 ∧ i < rest.length ∧ rest.getD i 0 ≠ 0) :
-    refItems (fuel + 1) pos (0 :: rest) = none := by
-  sorry
-
-end Rtcp.Proofs
+import Rtcp.Proofs.SdesScan
+import Rtcp.Proofs.SdesEncode
